@@ -126,13 +126,13 @@ def setChunk (s : S) (n : Nat) : S :=
 
 /-- `BaseProtocol.pause_reading()` -/
 def pauseReading (s : S) : S :=
-  let s := { s with paused := true }
-  if s.connected then { s with tpaused := true, evs := s.evs ++ [.pause] } else s
+  if s.connected then { s with paused := true, tpaused := true, evs := s.evs ++ [.pause] }
+  else { s with paused := true }
 
 /-- `BaseProtocol.resume_reading()` (with or without `resume_parser`; no parser attached) -/
 def resumeReading (s : S) : S :=
-  let s := { s with paused := false }
-  if s.connected then { s with tpaused := false, evs := s.evs ++ [.resume] } else s
+  if s.connected then { s with paused := false, tpaused := false, evs := s.evs ++ [.resume] }
+  else { s with paused := false }
 
 /-- `waiter = self._waiter; if waiter is not None: self._waiter = None; set_result(waiter, None)` -/
 def wake (s : S) : S := if s.waiter then { s with waiter := false, fut := .ok } else s
@@ -188,23 +188,28 @@ def chunksLow (s : S) : Bool :=
   | none => true
   | some l => l.length < s.lowChunks
 
+/-- which bytes `_read_nowait_chunk(n)` takes from the first buffer `b` (rest `t`) at offset
+`off`: `(data, new deque, new offset)`; `none` = -1 -/
+def rncSel (b : Bytes) (t : List Bytes) (off : Nat) : Option Nat → Bytes × List Bytes × Nat
+  | some k => if b.length - off > k then ((b.drop off).take k, b :: t, off + k) else (b.drop off, t, 0)
+  | none => (b.drop off, t, 0)
+
+/-- bookkeeping of `_read_nowait_chunk` after the data was selected -/
+def rncUpd (s : S) (data : Bytes) (bufs : List Bytes) (off : Nat) : S :=
+  { s with bufs := bufs, off := off, size := s.size - data.length, cursor := s.cursor + data.length,
+           splits := dropSplits s.splits (s.cursor + data.length), taken := s.taken ++ data }
+
+/-- `if self._size < self._low_water and (splits is None or len(splits) < low_water_chunks): resume_reading()` -/
+def maybeResume (s : S) : S := if s.size < s.low && chunksLow s then resumeReading s else s
+
 /-- `_read_nowait_chunk(n)`; `none` = -1.  Callers guarantee a non-empty buffer
 (the real code would raise IndexError otherwise). -/
 def rnc (s : S) (n : Option Nat) : S × Bytes :=
   match s.bufs with
   | [] => (s, [])
-  | b :: rest =>
-    let partialRead := match n with
-      | some k => decide (b.length - s.off > k)
-      | none => false
-    let (data, bufs, off) :=
-      if partialRead then ((b.drop s.off).take (n.getD 0), b :: rest, s.off + n.getD 0)
-      else (b.drop s.off, rest, 0)
-    let cursor := s.cursor + data.length
-    let s := { s with bufs := bufs, off := off, size := s.size - data.length, cursor := cursor,
-                      splits := dropSplits s.splits cursor, taken := s.taken ++ data }
-    let s := if s.size < s.low && chunksLow s then resumeReading s else s
-    (s, data)
+  | b :: t =>
+    let sel := rncSel b t s.off n
+    (maybeResume (rncUpd s sel.1 sel.2.1 sel.2.2), sel.1)
 
 /-- `[self._read_nowait_chunk(-1) for _ in range(count)]` joined -/
 def drainN : Nat → S → Bytes → S × Bytes
@@ -251,7 +256,7 @@ def contReadAny (s : S) (iter : Bool) : S × Out :=
 /-- `read(-1)`: `while True: block = await self.readany(); if not block: break`, entered inside
 `readany`'s wait loop with `acc` = the blocks so far -/
 def contReadAll : Nat → S → Bytes → Bool → S × Out
-  | 0, s, _, _ => (s, .err .fuel)
+  | 0, s, acc, _ => raise s acc .fuel
   | fuel + 1, s, acc, iter =>
     if s.bufs.isEmpty && !s.eof then park s ⟨.readAll, acc, iter⟩
     else
@@ -288,7 +293,7 @@ def contReadUntil (s : S) (sep : Bytes) (maxSize : Nat) (acc : Bytes) (iter : Bo
 
 /-- `readexactly`: inside the wait loop of its current `read(n)` (n > 0) -/
 def contReadExactly : Nat → S → Nat → Bytes → S × Out
-  | 0, s, _, _ => (s, .err .fuel)
+  | 0, s, _, acc => raise s acc .fuel
   | fuel + 1, s, n, acc =>
     if s.bufs.isEmpty && !s.eof then park s ⟨.readExactly n, acc, false⟩
     else
